@@ -85,8 +85,8 @@ class Prop(c17.Prop):
     ID = "C18"
     LEAN_MODULE = "TextxVerif.Props.C18"
     THEOREMS = ["Repo.C18_clean", "Repo.C18_survivors", "Repo.C18_repair"]
-    QUICK_CASES = 320
-    THOROUGH_CASES = 12000
+    QUICK_CASES = 260
+    THOROUGH_CASES = 4000
     RULE = ("import graphs as in C17 (<=6 files, 6 providers, global repository on in 3 of 4 cases); for each graph the "
             "(failing file, phase) pairs over {syntax error, unresolvable reference, object processor, model processor, "
             "missing file} are enumerated; history = optional warm-up loads, the failing load, the reload after the "
@@ -99,6 +99,18 @@ class Prop(c17.Prop):
         "files; 'corrected' = the next step's files no longer carry the fault"]
 
     def gen(self, rng, n, tier):
+        if tier == "thorough":
+            # complete: every import graph over <=3 files x every failing file x phase
+            for g in c17.all_graphs(3):
+                tab = c17.graph_table(g)
+                for victim in range(len(g)):
+                    for phase in PHASES[:4]:
+                        bad = copy.deepcopy(tab)
+                        bad[victim][phase] = True
+                        yield {"provider": "plain_uri", "glob": True, "builtin": [], "files": c17.graph_files(len(g)),
+                               "exhaustive": True,
+                               "steps": [{"main": len(g) - 1, "files": tab}, {"main": 0, "files": bad},
+                                         {"main": 0, "files": tab}]}
         made = 0
         while made < n:
             base = self.gen_case(rng, 0.0, nsteps=1)
@@ -113,7 +125,6 @@ class Prop(c17.Prop):
                     break
                 case = copy.deepcopy(base)
                 # main: a file whose closure contains the victim when possible
-                clean = {"main": 0, "files": files0}
                 mains = [m for m in range(nf)
                          if victim in closure_nc(case, {"main": m, "files": files0}, set())]
                 main = rng.choice(mains) if mains and not rng.chance(0.1) else rng.below(nf)
